@@ -24,41 +24,66 @@ TECHNIQUE = 'static: FANOUT coverage of Par/Seq run/setup/reads/writes (incl. jo
 RULE_TEXT = "one obligation per (node method, child), per path of Par::with, per wiring site"
 
 
+def _child(ev, t):
+    """'head' / 'tail' if the receiver term is that child of self."""
+    f_, i_, base = Q.table_access(ev, t)
+    cf = Q.crate_fields(f_)
+    if base == ("param", 1) and len(cf) == 1 and not i_ and cf[0][1] in ("head", "tail"):
+        return cf[0][1]
+    return None
+
+
 def seq_order(ctx, report, facts, config):
     rule = "C16.SEQ"
-    prog = ctx.program(facts)
     for name in ("run", "setup"):
         b = F.timpl(facts, A.T_RUNWITHPOOL, A.SEQ, name)
         report.touched(b, config)
-        bt = prog.bt(b)
-        h = [bb for bb, t in b.normal_calls() if Callee(t["func"]).name == name and root(bt.call_args(bb)[0], bt, facts.crate) == (SELF, ["head"])]
-        tl = [bb for bb, t in b.normal_calls() if Callee(t["func"]).name == name and root(bt.call_args(bb)[0], bt, facts.crate) == (SELF, ["tail"])]
-        ok = len(h) == 1 and len(tl) == 1 and bt.cfg.dominates(h[0], tl[0]) and h[0] != tl[0]
-        report.ob(rule, "Seq::%s/head-before-tail" % name, ok, "head.%s dominates tail.%s" % (name, name) if ok else
-                  "Seq::%s does not run head strictly before tail (head %s, tail %s)" % (name, h, tl), site=b.loc(), config=config)
+        ev, ends = Q.sem(ctx, facts, b)
+        rets = Q.returns(ends)
+        ok = bool(rets)
+        same = True
+        seen = []
+        for e in rets:
+            cs = [(x, _child(ev, x[3][0])) for x in Q.calls_in(e.path.events, lambda c: c.name == name and c.trait == A.T_RUNWITHPOOL, deep=True) if x[3]]
+            order = [w for _, w in cs]
+            seen.append(order)
+            if order != ["head", "tail"] or Q.all_loops([e]) or any(x[0] in ("once",) for x in e.path.events):
+                ok = False
+            elif name == "run":
+                same = same and all(tuple(Q.strip(ev, a) for a in x[3][1:]) == (("param", 2), ("param", 3)) for x, _ in cs)
+        report.ob(rule, "Seq::%s/head-before-tail" % name, ok, "head.%s then tail.%s on every way, on the calling thread" % (name, name) if ok else
+                  "Seq::%s does not run head strictly before tail (order of child calls per way: %s)" % (name, seen), site=b.loc(), config=config)
         if name == "run" and ok:
             # both children get the same world and pool
-            a1, a2 = bt.call_args(h[0]), bt.call_args(tl[0])
-            report.ob(rule, "Seq::run/same-args", a1[1:] == a2[1:] == [("param", 2), ("param", 3)], "children receive (world, pool)", site=b.loc(), config=config)
+            report.ob(rule, "Seq::run/same-args", same, "children receive (world, pool)", site=b.loc(), config=config)
 
 
 def par_join(ctx, report, facts, config):
     rule = "C16.PAR"
-    prog = ctx.program(facts)
     b = F.timpl(facts, A.T_RUNWITHPOOL, A.PAR, "run")
     report.touched(b, config)
-    bt = prog.bt(b)
-    joins = [(bb, Callee(t["func"])) for bb, t in b.normal_calls() if Callee(t["func"]).name == "join"]
-    cnt = bt.cfg.count(lambda x: x in [bb for bb, _ in joins]) if joins else (0, 0)
+    ev, ends = Q.sem(ctx, facts, b)
+    rets = Q.returns(ends)
+    counts = []
+    inside = True
+    for e in rets:
+        depth = 0
+        n = 0
+        for x in e.path.events:
+            if x[0] == "once":
+                depth += 1
+                n += 1 if x[2] == "join" else 0
+            elif x[0] == "once-end":
+                depth -= 1
+            elif x[0] == "call" and x[2].name == "run" and x[2].trait == A.T_RUNWITHPOOL and x[3] and _child(ev, x[3][0]) and n and depth == 0:
+                inside = False
+        counts.append(n)
     # running the children one after the other is allowed by the statement ("may overlap"); what is not
     # allowed is a path that joins twice or a join on some paths only while others run nothing (FANOUT decides that)
-    report.ob(rule, "Par::run/one-join", cnt == (1, 1) or not joins, "join calls per path: min %s / max %s (sites: %d)" % (cnt[0], cnt[1], len(joins)), site=b.loc(), config=config)
-    for bb, c in joins:
-        args = bt.call_args(bb)
-        clos = [a for a in args if isinstance(a, tuple) and a and a[0] == "agg" and a[1] == "closure"]
-        ok = len(clos) == 2 and clos[0][2] != clos[1][2]
-        report.ob(rule, "Par::run/join@%s" % ("pool" if len(args) == 3 else "global"), ok,
-                  "join receives two distinct closures" if ok else "join does not receive two distinct closures", site=b.loc(bb), config=config)
+    ok = bool(rets) and (all(c == 1 for c in counts) or all(c == 0 for c in counts))
+    report.ob(rule, "Par::run/one-join", ok, "join calls per way through: %s" % counts, site=b.loc(), config=config)
+    report.ob(rule, "Par::run/join-runs-children", inside, "where a join is used, the children run inside it" if inside else
+              "a child is run outside the join on a way that joins", site=b.loc(), config=config)
 
 
 def acc(ctx, report, facts, config):
@@ -156,8 +181,11 @@ def check(ctx, report, facts, config):
             else:
                 report.ob(rule, "Par::with/accept-path", True, "accepts only after all three intersections are empty", site=b.loc(), config=config)
                 ret = e.ret
-                ok = (ret[0] == "agg" and ret[2] == A.PAR + "::Par" and ret[3][0][0] == "agg" and ret[3][0][2] == A.PAR + "::Par"
-                      and ret[3][0][3] == (("field", ("param", 1), "head", A.PAR), ("param", 2)) and ret[3][1][0] == "agg" and ret[3][1][2] == A.NIL + "::Nil")
+                o = Q.record(ev, ret, A.PAR + "::Par")
+                i = Q.record(ev, o.get("head"), A.PAR + "::Par") if o else None
+                tl = Q.strip(ev, o.get("tail")) if o else None
+                ok = bool(i is not None and Q.strip(ev, i.get("head")) == ("field", ("param", 1), "head", A.PAR) and Q.strip(ev, i.get("tail")) == ("param", 2)
+                          and isinstance(tl, tuple) and tl[0] == "agg" and tl[2] == A.NIL + "::Nil")
                 report.ob(rule, "Par::with/wiring", ok, "returns Par { head: Par { head: self.head, tail: sys }, tail: Nil }" if ok else "unexpected result %s" % (ret[:3],), site=b.loc(), config=config)
         elif e.kind == "diverge":
             n_div += 1
@@ -167,20 +195,34 @@ def check(ctx, report, facts, config):
               "intersections tested: %s" % sorted(sorted(x) for x in seen_pairs), site=b.loc(), config=config)
     report.ob(rule, "Par::with/outcomes", n_ret >= 1 and n_div >= 3, "%d accepting path(s), %d rejecting path(s) (expected 1 and one per intersection)" % (n_ret, n_div), site=b.loc(), config=config)
     # Seq::with / new wiring
-    prog = ctx.program(facts)
+    def nested(ev, r, head, hn, inner_head, inner_tail):
+        o = Q.record(ev, r, head + "::" + hn)
+        if o is None:
+            return False
+        i = Q.record(ev, o.get("head"), head + "::" + hn)
+        t = Q.strip(ev, o.get("tail"))
+        return (i is not None and Q.strip(ev, i.get("head")) == inner_head and Q.strip(ev, i.get("tail")) == inner_tail
+                and isinstance(t, tuple) and t[0] == "agg" and t[2] == A.NIL + "::Nil")
+
     sw = facts.one(name="with", self_head=A.SEQ, container="inherent")
-    ret = prog.bt(sw).local(0)
-    ok = (ret[0] == "agg" and ret[2] == A.SEQ + "::Seq" and ret[3][0][0] == "agg" and ret[3][0][2] == A.SEQ + "::Seq"
-          and ret[3][0][3] == (("field", ("param", 1), "head", A.SEQ), ("param", 2)))
-    report.ob(rule, "Seq::with/wiring", ok, "returns Seq { head: Seq { head: self.head, tail: sys }, tail: Nil }" if ok else "unexpected %s" % (ret,), site=sw.loc(), config=config)
+    ev2, ends2 = Q.sem(ctx, facts, sw)
+    ok = bool(Q.returns(ends2)) and all(nested(ev2, e.ret, A.SEQ, "Seq", ("field", ("param", 1), "head", A.SEQ), ("param", 2)) for e in Q.returns(ends2))
+    report.ob(rule, "Seq::with/wiring", ok, "returns Seq { head: Seq { head: self.head, tail: sys }, tail: Nil }" if ok else "unexpected %s" % ([e.ret for e in Q.returns(ends2)],), site=sw.loc(), config=config)
     for head, hn in ((A.PAR, "Par"), (A.SEQ, "Seq")):
         nb = facts.one(name="new", self_head=head, container="inherent")
-        ret = prog.bt(nb).local(0)
-        ok = ret[0] == "agg" and ret[2] == head + "::" + hn and ret[3][0] == ("param", 1) and ret[3][1][0] == "agg" and ret[3][1][2] == A.NIL + "::Nil"
+        ev2, ends2 = Q.sem(ctx, facts, nb)
+        ok = bool(Q.returns(ends2))
+        for e in Q.returns(ends2):
+            o = Q.record(ev2, e.ret, head + "::" + hn)
+            t = Q.strip(ev2, o.get("tail")) if o else None
+            if not (o and Q.strip(ev2, o.get("head")) == ("param", 1) and isinstance(t, tuple) and t[0] == "agg" and t[2] == A.NIL + "::Nil"):
+                ok = False
         report.ob(rule, "%s::new/wiring" % hn, ok, "returns %s { head, tail: Nil }" % hn, site=nb.loc(), config=config)
     # Nil is an empty system
     nil = facts.one(name="run", trait=A.T_SYSTEM, self_head=A.NIL)
-    report.ob(rule, "Nil::run", not list(nil.normal_calls()), "Nil::run is empty", site=nil.loc(), config=config)
+    ev2, ends2 = Q.sem(ctx, facts, nil)
+    cs = sorted(set(x[2].name for e in ends2 for x in Q.calls_in(e.path.events, lambda c: True, deep=True)))
+    report.ob(rule, "Nil::run", not cs and bool(Q.returns(ends2)), "Nil::run is empty" if not cs else "Nil::run calls %s" % cs, site=nil.loc(), config=config)
 
 
 def macros(ctx, report, rule="C16.MACRO"):
